@@ -18,6 +18,7 @@ CONSTANTS
   UseReopen = FALSE
   UseEpochs = FALSE
   OccSet = {FALSE}
+  MinCleanSegs = 1
   UseReaders = TRUE
 INVARIANTS CTypeOK C01_Ordered SegsConsistent NoEmptyInnerSegment
 PROPERTIES StepsOK
